@@ -163,11 +163,12 @@ theorem keypair_step (table : List (Nat × List Nat)) (n : Nat)
     (hbits : 64 ≤ bitLength n)
     (htab : table.lookup (n >>> (bitLength n - 64)) = some metadata)
     (hseed : seedFromMeta metadata = .ok seed)
+    (heven : bitLength n % 2 = 0)
     (hgen : gen seed (bitLength n) = (p, q)) (hpq : p * q = n) :
     keypairStep table n gen = .ok (true, [p, q]) := by
   have hm : keypairMsb n = .ok (n >>> (bitLength n - 64)) := by
     simp [keypairMsb, Nat.not_lt.2 hbits]
-  simp [keypairStep, hm, htab, hseed, hgen, hpq]
+  simp [keypairStep, hm, htab, hseed, hgen, hpq, heven]
 
 /-- … negative directions: prefix not in the table, or the regenerated primes do not
 multiply to `n` → not flagged, nothing attached. -/
@@ -190,6 +191,47 @@ theorem keypair_wrong_product (table : List (Nat × List Nat)) (n : Nat)
     simp [keypairMsb, Nat.not_lt.2 hbits]
   simp [keypairStep, hm, htab, hseed, hpq]
 
+/-- D21 (fixed in /repo 8de8de4): a modulus of odd bit length is never flagged — the vulnerable
+generator multiplies two primes of `bits / 2` bits, whose product never has an odd size — and the
+generator is not consulted for it: the verdict is the same for EVERY oracle, in particular for
+the real `generate_key`, which does not return for an odd size. -/
+theorem keypair_odd_size (table : List (Nat × List Nat)) (n : Nat)
+    (gen : List Nat → Nat → Nat × Nat) (hbits : 64 ≤ bitLength n)
+    (hodd : bitLength n % 2 = 1) :
+    keypairStep table n gen = .ok (false, []) := by
+  have hm : keypairMsb n = .ok (n >>> (bitLength n - 64)) := by
+    simp [keypairMsb, Nat.not_lt.2 hbits]
+  cases htab : table.lookup (n >>> (bitLength n - 64)) <;> simp [keypairStep, hm, htab, hodd]
+
+/-- the generator oracle is consulted for even sizes only: two oracles that agree on every even
+size give the same verdict on every modulus (so the totality statements never rely on
+`generate_key(odd)` returning). -/
+theorem keypair_gen_even_only (table : List (Nat × List Nat)) (n : Nat)
+    (gen gen' : List Nat → Nat → Nat × Nat)
+    (h : ∀ seed bits, bits % 2 = 0 → gen seed bits = gen' seed bits) :
+    keypairStep table n gen = keypairStep table n gen' := by
+  unfold keypairStep
+  split
+  · rfl
+  · split
+    · rfl
+    · split
+      · rfl
+      · rename_i hev
+        have hev' : bitLength n % 2 = 0 := by omega
+        split
+        · rfl
+        · rename_i seed _
+          rw [h seed _ hev']
+
+/-- a product of two numbers of `k` bits has `2k - 1` or `2k` bits: never `2k + 1`, which is why
+`generate_key(2k + 1)` (primes of `(2k + 1) / 2 = k` bits, loop until the product has `2k + 1`
+bits) cannot return. -/
+theorem product_size_never_odd (k p q : Nat) (hp : p < 2 ^ k) (hq : q < 2 ^ k) :
+    p * q < 2 ^ (2 * k) := by
+  calc p * q < 2 ^ k * 2 ^ k := Nat.mul_lt_mul'' hp hq
+    _ = 2 ^ (2 * k) := by rw [← Nat.pow_add]; congr 1; omega
+
 /-- soundness: whatever the table and the oracle, a key is flagged only together with two
 factors whose product is `n`, and an unflagged key gets no factors. -/
 theorem keypair_sound (table : List (Nat × List Nat)) (n : Nat)
@@ -203,13 +245,16 @@ theorem keypair_sound (table : List (Nat × List Nat)) (n : Nat)
     · simp only [Except.ok.injEq, Prod.mk.injEq] at h
       exact Or.inr ⟨h.1.symm, h.2.symm⟩
     · split at h
-      · cases h
+      · simp only [Except.ok.injEq, Prod.mk.injEq] at h
+        exact Or.inr ⟨h.1.symm, h.2.symm⟩
       · split at h
-        · rename_i hpq
-          simp only [Except.ok.injEq, Prod.mk.injEq] at h
-          exact Or.inl ⟨h.1.symm, _, _, h.2.symm, hpq⟩
-        · simp only [Except.ok.injEq, Prod.mk.injEq] at h
-          exact Or.inr ⟨h.1.symm, h.2.symm⟩
+        · cases h
+        · split at h
+          · rename_i hpq
+            simp only [Except.ok.injEq, Prod.mk.injEq] at h
+            exact Or.inl ⟨h.1.symm, _, _, h.2.symm, hpq⟩
+          · simp only [Except.ok.injEq, Prod.mk.injEq] at h
+            exact Or.inr ⟨h.1.symm, h.2.symm⟩
 
 /-- a modulus shorter than 64 bits makes the check raise `ValueError` (negative shift
 count) before the table is consulted. -/
@@ -307,6 +352,9 @@ example : seedFromMeta [0x1e, 4, 8, 0x1c, 2] =
     .ok ([0x1e, 0, 0, 0, 8] ++ List.replicate 23 0 ++ [2, 0, 0, 0]) := by decide +kernel
 example : keypairStep [(2 ^ 63, [7])] (2 ^ 63 * 2 ^ 10) (fun _ _ => (2 ^ 63, 2 ^ 10)) =
     .ok (true, [2 ^ 63, 2 ^ 10]) := by decide +kernel
+-- odd size (75 bits): not flagged although the oracle's product is `n`
+example : keypairStep [(2 ^ 63, [7])] (2 ^ 63 * 2 ^ 11) (fun _ _ => (2 ^ 63, 2 ^ 11)) =
+    .ok (false, []) := by decide +kernel
 
 /-! ## EC half: CheckValidECKey, CheckWeakCurve -/
 
